@@ -535,6 +535,12 @@ def g_budget_splits(F, rng, tier):
                     pos = rng.sample(pos, 8)
             for pnt in pos:
                 out.append(mk(F.name, d[:pnt], d[pnt:], e + (nn - pnt), "G19:budget-" + name))
+            # fraction-only spellings: every leading zero written out (exponent 0), then x MORE zeros compensated by
+            # the exponent x - a budget counted in decimal PLACES instead of significant digits cuts the digits here
+            z0 = -(e + nn)
+            if z0 >= 0:
+                for x in ((0, 1, 19) if q else (0, 1, 2, 19, 150, 400)):
+                    out.append(mk(F.name, "", "0" * (z0 + x) + d, x, "G19:places-" + name))
     return out
 
 
@@ -678,6 +684,70 @@ def g_pow5_thresholds(F, rng, tier):
     for (w, q) in pow5_thresholds(F, rng):
         out.append(mk(F.name, str(w), "", q, "G23:pow5-threshold"))
     return out[:: 2 if tier == "quick" else 1]
+
+
+def g_limb_crossers(F, rng, tier):
+    """G24: halfway points between SUBNORMALS m and m+1 for which an intermediate of the stepped power (2m+1) x 5^(135 i)
+    lands just above a limb boundary 2^(64 j) (its top limb is a small number): there the partial products of the long
+    multiplication have no carry limb of their own while the running sum still carries into a NEW limb - the last
+    carry of `large_add_from`.  Exact tie, far-out digit, tail of nines."""
+    out = []
+    e = F.mbits + F.bias             # the midpoints are odd multiples of 2^-(e): f64 1075, f32 150
+    per = 6 if tier == "quick" else 40
+    for i in range(1, e // 135 + 1):
+        p5 = 5 ** (135 * i)
+        for j in range(1, 40):
+            lo = -(-(1 << (64 * j)) // p5)
+            if lo < 3 or lo >= (1 << F.mbits):
+                continue
+            hi = lo + max(2, lo // 64)
+            cands = sorted({lo | 1, (lo + 2) | 1, (lo + 4) | 1} | {rng.randrange(lo, hi) | 1 for _ in range(per)})
+            for odd in cands:
+                m = (odd - 1) // 2
+                if not 0 <= m < (1 << F.mbits) - 1:
+                    continue
+                for r in midpoint_variants(F, m, rng, tier):
+                    if r["tag"].split(":")[1] in ("exact", "far1", "nines", "last+1", "last-1"):
+                        r["tag"] = "G24:" + r["tag"].split(":")[1]
+                        out.append(r)
+    return out
+
+
+def straddles(F, ds, e10):
+    """does int(ds) x 10^e10 (more than 19 digits) reach the big-integer path, i.e. is there a rounding boundary between
+    its 19-digit prefix w and w + 1 (exact arithmetic)"""
+    w = int(ds[:19])
+    kk = e10 + len(ds) - 19
+    num, den = (w * 10 ** kk, 1) if kk >= 0 else (w, 10 ** (-kk))
+    num2 = (w + 1) * 10 ** kk if kk >= 0 else w + 1
+    lo = float_below(F, num, den)
+    if lo >= F.infbits - 1:
+        return False
+    M, ke = F.midpoint(lo)
+    mn, md = (M << ke, 1) if ke >= 0 else (M, 1 << (-ke))
+    return num * md < mn * den <= num2 * md
+
+
+def g_pow2_digits(F, rng, tier):
+    """G25: digit strings equal to 2^(64 j) + d (d = 0..5, j = 2..12): while they are accumulated chunk by chunk the
+    running big integer crosses a limb boundary with every higher limb all ones - the longest possible carry ripple of
+    `add_small`, ending in a NEW limb; the exponents are the ones (found by exact search) for which the big-integer
+    path is actually reached"""
+    out = []
+    q = tier == "quick"
+    for j in range(2, 13):
+        for d in ((0, 1) if q else (0, 1, 2, 3, 5)):
+            ds = str((1 << (64 * j)) + d)
+            found = 0
+            for e10 in rng.sample(range(-330, 300), 630):
+                if len(ds) + e10 > F.p10_hi + 1 or len(ds) + e10 < F.p10_lo:
+                    continue
+                if straddles(F, ds, e10):
+                    out.append(mk(F.name, ds, "", e10, "G25:pow2-digits"))
+                    found += 1
+                    if found >= (2 if q else 6):
+                        break
+    return out
 
 
 def g_floats_exact(F, rng, n):
@@ -1237,6 +1307,15 @@ def g_groups(F, rng, tier):
     for ds in ("1", "10", "10000", "12345678901234567890", "9999999999999999999", "18446744073709551616"):
         for e in (0, F.fast_exp, F.fast_exp + 1, -F.fast_exp - 1, F.disg_exp, F.p10_hi - len(ds), F.p10_lo + 5, 4, 8):
             group(ds.rstrip("0") or "1", e + len(ds) - len(ds.rstrip("0")), "C10:seam")
+    # the decimal point moved by hundreds to tens of thousands of places, compensated by the exponent (run-length: cheap):
+    # 0.000..0ddd e(+n) = ddd = ddd000..0 e(-n), for n around every bound an implementation may clamp at
+    for ds in (("1", "9007199254740993") if q else ("1", "25", "9007199254740993", "17976931348623157", "49406564584124654")):
+        for base_e in ((0, -330) if F.name == "f64" else (0, 30)):
+            mem = [{"int": ds, "frac": "", "exp": base_e}]
+            for n in ((400, 4095, 4096, 4097, 5000) if q else (300, 400, 4000, 4095, 4096, 4097, 5000, 20000)):
+                mem.append({"int": "", "frac": core.segs("0" * 0) + [{"d": [0], "n": n}] + core.segs(ds), "exp": base_e + n + len(ds)})
+                mem.append({"int": core.segs(ds) + [{"d": [0], "n": n}], "frac": "", "exp": base_e - n})
+            out.append({"kind": "group", "fmt": F.name, "tag": "C10:far-point", "members": mem})
     # short exact values at r/8 of an ulp: the same value with 0, 1, 2 trailing zeros in the significand and the point moved
     for (w, qq, r) in short_eighths(F, rng, 1 if q else 4):
         mem = []
